@@ -148,6 +148,9 @@ structure Case where
   corrOnly : Bool := false
   propOnly : Bool := false
   dump : Bool := false
+  final : Array Pyrtma.Mgr.Spec.FinalRow := #[]     -- the manager's module table at the end (FINAL lines)
+  flog : Option (List Nat) := none                  -- its logger set (FLOG line; also marks "final tables were sent")
+  fidx : Array (Int × List Nat) := #[]              -- its subscription index (FIDX lines)
 
 def addToLast (a : Array Round) (f : Round → Round) : Array Round :=
   if a.size == 0 then a else a.modify (a.size - 1) f
@@ -218,9 +221,32 @@ def finishCase (c : Case) : List String :=
         | none, none => s!"{c.id} CORR {p} ok"
         | some d, _ => s!"{c.id} CORR {p} diff {d}"
         | none, some d => if p == "C03" || p == "all" then s!"{c.id} CORR {p} diff {d}" else s!"{c.id} CORR {p} ok")
+  let finalRows := if c.flog.isSome then some c.final.toList else none
   let props :=
     if c.corrOnly then []
-    else (Pyrtma.Mgr.Spec.checkAll c.cfg rounds oev c.crash).map (fun p => s!"{c.id} PROP {p.1} {p.2}")
+    else (Pyrtma.Mgr.Spec.checkAllFinal c.cfg rounds oev c.crash finalRows).map (fun p => s!"{c.id} PROP {p.1} {p.2}")
+  -- the manager's tables at the end against the model's final state: identity of every table entry (C06), its
+  -- subscriptions (C01), and — informational, in the `all` tie only — the logger set and the subscription index
+  let corrFinal :=
+    if c.propOnly || c.flog.isNone || c.crash.isSome || ms.crashed.isSome then []
+    else
+      let showId := fun (uid : Nat) (mid : Int) (uq lg dm cn : Bool) (pid : Int) (nm : List Nat) =>
+        s!"{uid} id={mid} unique={uq} logger={lg} daemon={dm} connected={cn} pid={pid} name={nm}"
+      let implId := c.final.toList.map (fun r => showId r.uid r.modId r.unique r.isLogger r.isDaemon r.connected r.pid r.name)
+      let modelId := ms.mods.map (fun m => showId m.uid m.modId m.unique m.isLogger m.isDaemon m.connected m.pid m.name)
+      let sortI := fun (l : List Int) => l.toArray.qsort (· < ·) |>.toList
+      let implSubs := c.final.toList.map (fun r => s!"{r.uid} {sortI r.subs}")
+      let modelSubs := ms.mods.map (fun m => s!"{m.uid} {sortI m.subs}")
+      let implIdx := c.fidx.toList.map (fun p => s!"{p.1} {p.2}")
+      let modelIdx := ((ms.idx.filter (fun p => !p.2.isEmpty)).toArray.qsort (fun a b => a.1 < b.1)).toList.map
+        (fun p => s!"{p.1} {c.cfg.order p.2}")
+      let d1 := if implId == modelId then [] else
+        [s!"{c.id} CORR C06 diff final module table model={(modelId.filter (fun x => !implId.contains x)).take 2} impl={(implId.filter (fun x => !modelId.contains x)).take 2}"]
+      let d2 := if implSubs == modelSubs then [] else
+        [s!"{c.id} CORR C01 diff final subscriptions model={(modelSubs.filter (fun x => !implSubs.contains x)).take 2} impl={(implSubs.filter (fun x => !modelSubs.contains x)).take 2}"]
+      let d3 := if c.flog == some (c.cfg.order ms.loggers) && implIdx == modelIdx then [] else
+        [s!"{c.id} CORR all diff final logger set / subscription index model={c.cfg.order ms.loggers} {modelIdx.take 3} impl={c.flog} {implIdx.take 3}"]
+      d1 ++ d2 ++ d3
   -- the Spec evaluated on the *model's own* run of the same script (a test of `model ⊨ Spec`, not a theorem): a clause
   -- the model violates means the Spec or the model is wrong, whatever the implementation did
   let specModel :=
@@ -236,7 +262,7 @@ def finishCase (c : Case) : List String :=
       let idx := ((List.zip m o).takeWhile (fun p => p.1 == p.2)).length
       (m.getD idx []).map (fun e => s!"{c.id} DUMP model round {idx}: {e}") ++
       (o.getD idx []).map (fun e => s!"{c.id} DUMP impl  round {idx}: {e}")
-  corr ++ specModel ++ props ++ dump
+  corr ++ corrFinal ++ specModel ++ props ++ dump
 
 def step (c : Case) (line : String) : Case × List String :=
   match toks line with
@@ -251,6 +277,12 @@ def step (c : Case) (line : String) : Case × List String :=
                        h := { k := natOf k, mtype := intOf t, src := intOf s, dest := intOf d, destHost := intOf dh, nbytes := intOf n },
                        payErr := pe == "1", avail := natOf av, pay := unhex pay }
     ({ c with rounds := addToLast c.rounds (fun r => { r with reads := r.reads ++ [rd] }) }, [])
+  | "FINAL" :: u :: mid :: uq :: lg :: dm :: cn :: pid :: nm :: subs =>
+    ({ c with final := c.final.push { uid := natOf u, modId := intOf mid, unique := uq == "1", isLogger := lg == "1",
+                                       isDaemon := dm == "1", connected := cn == "1", pid := intOf pid,
+                                       name := if nm == "-" then [] else unhex nm, subs := subs.map intOf } }, [])
+  | "FLOG" :: us => ({ c with flog := some (us.map natOf) }, [])
+  | "FIDX" :: t :: us => ({ c with fidx := c.fidx.push (intOf t, us.map natOf) }, [])
   | ["OBS0"] => ({ c with obs := #[#[]] }, [])      -- start of observations: events before round 1
   | ["MARK"] => ({ c with obs := c.obs.push #[] }, [])
   | "CRASH" :: w => ({ c with crash := some (joinSp w) }, [])
